@@ -8,10 +8,10 @@ Local Open Scope Z_scope.
    pointer; Authenticate Data signs exactly the concatenation of the listed (address, size) blocks of the exported image. *)
 Theorem cms_obligations_ranges :
   forall c b q, hab_build c = Ok b -> hab_pre c = Ok q -> c_auth c = true -> layout_wf c q ->
-  (c_enc c = true -> wf_bytes (h_dek c)) -> 0 <= q_dcd_sz q -> 64 + q_dcd_sz q <= c_app_off c ->
+  (c_enc c = true -> wf_bytes (h_dek c)) -> dcd_sized q ->
   hskip (b_image b) (iv_csf (c_ivt c) - iv_self (c_ivt c)) = b_csf b /\
   hbyte (b_csf b) 0 = 212 /\
   b_tbs_csf b = hslice (b_csf b) 0 (u16be_at (b_csf b) 1) /\
   b_tbs_data b = concat (map (fun blk => hslice (b_image b) (fst blk - c_self c) (fst blk - c_self c + snd blk)) (b_signed b)).
-Proof. exact cms_ranges. Qed.
+Proof. exact cms_ranges'. Qed.
 Print Assumptions cms_obligations_ranges.
